@@ -9,6 +9,7 @@ modes
           ops: write / utime / remove of file f; symlink (link l -> file f); state of file f spelled sp, or through link l
   collect {"root": dir, "base": dir, "decls":[…]} -> [{"path": collected path | None, "sig": …}|{"err":…}, …]
   pystate {"values":[jv,…]}                       -> [PythonNode(value=v, hash=True).state(), …]
+  pywrap  {"values":[jv,…], "flags":[bool,…]}     -> [{"w": state of the collected dependency, "n": state of the node}, …]
   build   {"root": dir}                           -> {"exit": int, "outcomes": {task name: outcome name}}
 
 jv (JSON value): {"t":"none"} {"t":"bool","v":true} {"t":"int","v":"12"} {"t":"float","v":"0x1.8p+0"}
@@ -80,6 +81,29 @@ def mode_pystate(req):
             out.append(PythonNode(name="n", value=dejson(j), hash=True).state())
         except Exception as e:  # noqa: BLE001
             out.append(f"err:{type(e).__name__}")
+    return out
+
+
+def mode_pywrap(req):
+    """A PythonNode(hash=flag) without value is declared as a dependency (collect_dependency wraps it), then the producer
+    saves the value: state() of the collected dependency and of the node itself."""
+    from _pytask.collect_utils import collect_dependency
+    from _pytask.models import NodeInfo
+    from _pytask.nodes import PythonNode
+    from _pytask.session import Session
+    from _pytask.pluginmanager import get_plugin_manager
+    root = Path("/verif-nonexistent-root")
+    session = Session.from_config({"check_casing_of_paths": False, "paths": (root,), "root": root, "pm": get_plugin_manager()})
+    out = []
+    for j, flag in zip(req["values"], req["flags"]):
+        try:
+            node = PythonNode(name="shared", hash=flag)
+            ni = NodeInfo(arg_name="v", path=(), value=node, task_path=root / "task_m.py", task_name="task_use")
+            dep = collect_dependency(session, root, "task_use", ni)
+            node.save(dejson(j))
+            out.append({"w": dep.state(), "n": node.state(), "same_obj": dep is node})
+        except Exception as e:  # noqa: BLE001
+            out.append({"err": type(e).__name__})
     return out
 
 
@@ -235,7 +259,7 @@ def main():
         res = [str(hash(int(s))) for s in req["ints"]]
     else:
         res = {"pool": mode_pool, "sigs": mode_sigs, "ops": mode_ops, "collect": mode_collect,
-               "pystate": mode_pystate, "build": mode_build}[mode](req)
+               "pystate": mode_pystate, "build": mode_build, "pywrap": mode_pywrap}[mode](req)
     real_stdout = sys.__stdout__
     real_stdout.write("\n@@RESULT@@" + json.dumps(res) + "\n")
 
